@@ -176,6 +176,7 @@ RunOutcome exec_C19(const Case &c) {
     }
     // ---- fresh-memory differential: outputs and control flow must not depend on what fresh heap blocks / the workspace contain
     if (!force_dirty) {
+        for (auto &o : plan.ops) if (o.vchange == "singular") singular = true; // may also end as "out of space" without being reported
         if (singular) out.stats["dirty_pass_skipped_singular"] += 1;
         else {
             int modes[2] = {plan.garbage, c.prior_plans};
